@@ -15,7 +15,7 @@ RULE = ('corpus (F6-F9 witnesses, empty-window witnesses) first; exhaustive box:
         'a multi-location extraction stream (2-4 separated / touching / overlapping locations, all strands, filler x splitter, by Feature / own feature / '
         'type name with a later duplicate type); a gap stream (sequences with gap columns at the ends, in runs and isolated; gap strings - . -. "" N; '
         'int / slice / Location / Feature / own-feature / type-name windows in residue numbering, both strands, with and without update_fts); '
-        'a history stream on ONE object (state independence): window - length-preserving in-place edit (rc, reverse, complement, item assignment, data '
+        'a history stream on ONE object (state independence): window - in-place edit (rc, reverse, complement, item assignment, the in-place str methods seq.str.upper / lower / swapcase / replace / strip / lstrip / rstrip, data '
         'assignment with the gaps moved, feature replacement) - same window again; the same window twice and with other gap / update_fts values in both '
         'orders; editing the RESULT of a window (rc with features, popping / rewriting its features, its data, its id) and repeating; windows through a '
         'Feature sharing the Location objects of an own feature followed by rc(update_fts); a fresh object colliding on id and length; in-place windows; '
@@ -68,7 +68,9 @@ ASSUMPTIONS = ['Python str restricted to ASCII; sequences over the 17-symbol IUP
 MODELLED_FUNCS = {
     'sugar/core/seq.py': ['BioSeq._getitem', 'BioSeq._slice_locs', 'BioSeq.rc', 'BioSeq.__getitem__', 'BioSeq.sl', 'BioSeq.__setitem__',
                           '_Sliceable_GetItem.__init__', '_Sliceable_GetItem.__getitem__',
-                          'BioBasket._getitem', 'BioBasket.__getitem__', 'BioBasket.sl', 'BioBasket.rc', 'BioSeq.add_fts'],
+                          'BioBasket._getitem', 'BioBasket.__getitem__', 'BioBasket.sl', 'BioBasket.rc', 'BioSeq.add_fts',
+                          '_BioSeqStr.upper', '_BioSeqStr.lower', '_BioSeqStr.swapcase', '_BioSeqStr.replace', '_BioSeqStr.strip',
+                          '_BioSeqStr.lstrip', '_BioSeqStr.rstrip'],
     'sugar/core/fts.py': ['FeatureList.slice', 'FeatureList.rc', 'FeatureList.get', 'FeatureList.select', 'FeatureList.sort',
                           'Feature.__lt__', 'Feature.__eq__', 'Feature.__len__', 'LocationTuple.__lt__', 'Location.__eq__',
                           'Feature.rc', 'Feature.__init__',
@@ -292,6 +294,18 @@ def _gap_case(rng):
     return case
 
 
+def _str_edit(rng, gap=None):
+    """an in-place str method of the BioSeq.str namespace (most keep the length; replace / strip may not)"""
+    r = rng.random()
+    if r < 0.2:
+        return {'op': 'strcase', 'm': rng.choice([0, 0, 1, 2])}
+    if r < 0.75:
+        old = rng.choice('ACGT' + (gap or '-'))
+        new = rng.choice('ACGT' + (gap or '-')) if rng.random() < 0.8 else rng.choice(['', 'AC', 'N-'])
+        return {'op': 'strreplace', 'old': old, 'new': new}
+    return {'op': 'strstrip', 'side': rng.randrange(3), 'chars': rng.choice(['-', 'A', 'AC', '-.', 'ACGT', ''])}
+
+
 def _history(rng):
     """several steps on ONE sequence object (state-independence stream): windows interleaved with in-place edits, the same
     window repeated, options varied in both orders, results edited afterwards, fresh objects colliding on id / length"""
@@ -321,10 +335,12 @@ def _history(rng):
         r = rng.random()
         if r < 0.3:
             return {'op': 'win', 'win': {'k': 'rc'}, 'u': (not gapped) and rng.random() < 0.5, 'splitter': None, 'filler': None, 'gap': None}
-        if r < 0.5:
+        if r < 0.45:
             return {'op': 'reverse'}
-        if r < 0.6:
+        if r < 0.52:
             return {'op': 'complement'}
+        if r < 0.62:
+            return _str_edit(rng, gap)
         if r < 0.8:
             return {'op': 'setitem', 'i': rng.randint(-n, n - 1), 'c': rng.choice('ACGT' + (gap or '-'))}
         if r < 0.9:
@@ -495,8 +511,12 @@ def _fhist(rng):
             st = {'op': 'win', 'win': {'k': 'rc'}, 'u': rng.random() < 0.6, 'splitter': None, 'filler': None, 'gap': None}
         elif r < 0.5:
             st = {'op': 'reverse'}
-        elif r < 0.6:
+        elif r < 0.55:
             st = {'op': 'complement'}
+        elif r < 0.65:
+            st = _str_edit(rng)
+            if st['op'] != 'strcase' and rng.random() < 0.7:      # keep the length (the features stay inside the sequence)
+                st = {'op': 'strreplace', 'old': rng.choice('ACGT'), 'new': rng.choice('ACGT')}
         elif r < 0.75:
             st = {'op': 'setitem', 'i': rng.randint(-n, n - 1), 'c': rng.choice('ACGT')}
         elif r < 0.9:
@@ -854,6 +874,12 @@ def _do_hstep(seq, st):
         seq[st['i']] = st['c']
     elif op == 'setdata':
         seq.data = st['data']
+    elif op == 'strcase':
+        assert getattr(seq.str, ('upper', 'lower', 'swapcase')[st['m']])() is seq
+    elif op == 'strreplace':
+        assert seq.str.replace(st['old'], st['new']) is seq
+    elif op == 'strstrip':
+        assert getattr(seq.str, ('strip', 'lstrip', 'rstrip')[st['side']])(st['chars']) is seq
     elif op == 'setfts':
         seq.fts = FeatureList([Feature(t, locs=[Location(*l) for l in ls]) for t, ls in st['fts']])
     elif op == 'new':
@@ -1131,6 +1157,12 @@ def _step_term(st, fts):
         return '(HSetItem %s%%Z %s)' % (_z(st['i']), coq_bs(st['c']))
     if op == 'setdata':
         return '(HSetData %s)' % coq_bs(st['data'])
+    if op == 'strcase':
+        return '(HStrCase %d%%Z)' % st['m']
+    if op == 'strreplace':
+        return '(HStrReplace %s %s)' % (coq_bs(st['old']), coq_bs(st['new']))
+    if op == 'strstrip':
+        return '(HStrStrip %d%%Z %s)' % (st['side'], coq_bs(st['chars']))
     if op == 'setfts':
         return '(HSetFts %s)' % _fts_term(st['fts'])
     if op == 'new':
@@ -1416,6 +1448,17 @@ def _spec_hstep(state, st, val, after):
             why = 'expected IndexError, got %r' % (val,)
     elif op == 'setdata':
         exp_state = [st['data'], fts]
+    elif op == 'strcase':                    # the in-place str methods: the residues change as the str method says, the features stay
+        exp_state = [''.join((c.upper(), c.lower(), c.lower() if c.isupper() else c.upper())[st['m']] for c in data), fts]
+    elif op == 'strreplace':
+        exp_state = [''.join(st['new'] if c == st['old'] else c for c in data), fts]
+    elif op == 'strstrip':
+        a, b = 0, len(data)
+        while st['side'] != 2 and a < b and data[a] in st['chars']:
+            a += 1
+        while st['side'] != 1 and a < b and data[b - 1] in st['chars']:
+            b -= 1
+        exp_state = [data[a:b], fts]
     elif op == 'setfts':
         exp_state = [data, _canon_raw(st['fts'])]
     elif op == 'new':
@@ -1760,6 +1803,12 @@ def _valid_hstep(st):
         return isinstance(st['i'], int) and isinstance(st['c'], str)
     if op == 'setdata':
         return isinstance(st['data'], str)
+    if op == 'strcase':
+        return st['m'] in (0, 1, 2)
+    if op == 'strreplace':
+        return isinstance(st['old'], str) and len(st['old']) == 1 and isinstance(st['new'], str)
+    if op == 'strstrip':
+        return st['side'] in (0, 1, 2) and isinstance(st['chars'], str)
     if op == 'setfts':
         return _valid_fts(st['fts'])
     if op == 'new':
@@ -1861,6 +1910,9 @@ def valid_case(c):
             elif op == 'share':
                 if not (isinstance(st['idx'], int) and 0 <= st['idx'] < 1000):
                     return False
+            elif op in ('strcase', 'strreplace', 'strstrip'):
+                if not _valid_hstep(st):
+                    return False
             elif op not in ('reverse', 'complement'):
                 return False
         return True
@@ -1913,7 +1965,7 @@ def extra_checks(rng, tier, cov):
                              'sequence length <= %d' % (5 if tier == 'thorough' else 3))
 
 
-LEVEL_TEXT = ('Machine-checked Coq theorems (61, no axioms) about an executable model of BioSeq._getitem/_slice_locs/rc(update_fts) and '
+LEVEL_TEXT = ('Machine-checked Coq theorems (62, no axioms) about an executable model of BioSeq._getitem/_slice_locs/rc(update_fts) and '
               'FeatureList.slice/rc: extraction by Location/Feature/type name is the 5\'->3\' concatenation of the (reverse-complemented) pieces '
               'with filler/splitter (filler pads ascending plus-strand locations to the range length); under update_fts every surviving location '
               'addresses the same residues inside the window (int, every slice window, Location / single-location Feature windows on both strands), '
@@ -1931,7 +1983,7 @@ LEVEL_TEXT = ('Machine-checked Coq theorems (61, no axioms) about an executable 
               'the head of fts.select, select the sub-list of matching features (C06_get_head_select); the type-name lookup after item assignment / '
               'delete / append / reverse / insert from the pieces of the list before the edit (C06_get_after_edit, C06_get_after_insert); after sort() it '
               'is the matching feature at the smallest position, the earliest of those before the sort (C06_get_after_sort); list_set / list_del / '
-              'negative indices / remove (C06_list_edit_spec, C06_norm_idx_spec, C06_remove_first_spec); sort twice = once, seq.add_fts = stable position sort of old ++ new (C06_sort_idempotent_add_fts); which edits re-order / keep / change the number of features (C06_fedit_shape); lookups leave no trace: the answers to any '
+              'negative indices / remove (C06_list_edit_spec, C06_norm_idx_spec, C06_remove_first_spec); sort twice = once, seq.add_fts = stable position sort of old ++ new (C06_sort_idempotent_add_fts); which edits re-order / keep / change the number of features (C06_fedit_shape); the in-place str methods of the history language (C06_str_methods_spec); lookups leave no trace: the answers to any '
               'continuation of a history are the same with every earlier lookup removed (C06_history_lookups_transparent). '
               'The model is tied to sugar by differential testing on every run (exhaustive small box, random, gap stream, state-independence histories, '
               'feature-list histories on 1-3 objects).')
